@@ -152,3 +152,64 @@ def ref_eval38(spec, ctx=None):
                 return ("recovered", next(iter(r.msgs)))
             raise Raised({"<one of several>"}) from None
     raise AssertionError(kind)
+
+
+# ---------------------------------------------------------------------------------------------------------------
+# Set-valued reference: which error of several failing siblings surfaces depends on the schedule, so a program can
+# have several admissible outcomes (e.g. catch around a container with two failing children recovers either one).
+MAX_OUTCOMES = 512
+
+
+class TooManyOutcomes(Exception):
+    pass
+
+
+def freeze(v):
+    if isinstance(v, (list, tuple)):
+        return tuple(freeze(x) for x in v)
+    return v
+
+
+def ref_outcomes(spec, ctx=None):
+    """All admissible outcomes of call38(spec) under parent context ctx, as a set of ("val", frozen value) /
+    ("err", message).  A superset of what one run can show (equal calls are treated independently), so comparing
+    against it never flags behaviour the property allows.  Raises TooManyOutcomes beyond MAX_OUTCOMES."""
+    ctx = ctx or {}
+    name, kind, payload, children = spec[:4]
+    opts = spec[4] if len(spec) > 4 and spec[4] else {}
+    myctx = merge_ctx(ctx, opts.get("context"))
+    if kind == "leaf":
+        return {("val", freeze(payload))}
+    if kind == "ctx":
+        return {("val", ("ctx", payload, myctx.get("k", "none")))}
+    if kind == "raise":
+        return {("err", str(payload))}
+    kids = [ref_outcomes(ch, myctx) for ch in children]
+    if kind in ("subrun", "alias") and not (kind == "subrun" and dict(payload).get("aslist")):
+        return kids[0]
+    if kind == "catch":
+        return {o if o[0] == "val" else ("val", ("recovered", o[1])) for o in kids[0]}
+    out = set()
+    n = 1
+    for k in kids:
+        n *= max(1, len(k))
+        if n > MAX_OUTCOMES:
+            raise TooManyOutcomes(name)
+    import itertools
+    for combo in itertools.product(*kids):
+        errs = [o[1] for o in combo if o[0] == "err"]
+        if kind == "seq":
+            # sequential: the first failing child stops the sequence
+            if errs:
+                out.add(("err", errs[0]))
+            else:
+                out.add(("val", tuple(o[1] for o in combo)))
+        elif kind in ("list", "plainlist", "subrun"):
+            if errs:
+                out |= {("err", e) for e in errs}         # whichever failing child is seen first
+            else:
+                vals = tuple(o[1] for o in combo)
+                out.add(("val", (payload, vals) if kind == "list" else vals))
+        else:
+            raise AssertionError(kind)
+    return out
